@@ -150,22 +150,38 @@ type built struct {
 	overlay  string
 	modfile  string
 	rewrites []string
+	env      []string // extra environment for the driver processes
+	genSeed  uint64
+	genN     int
 }
 
 func prepare(spec *Spec, flavours []string) *built {
+	return prepareGen(spec, flavours, seed(), spec.GenN)
+}
+
+// prepareGen is prepare for checks whose programs are generated at check time
+// (C03): genSeed/genN select the batch.
+func prepareGen(spec *Spec, flavours []string, genSeed uint64, genN int) *built {
 	start := time.Now()
 	work := filepath.Join(verifDir, ".work", fmt.Sprintf("%s-%d", spec.ID, os.Getpid()))
 	os.RemoveAll(work)
 	if err := os.MkdirAll(filepath.Join(work, "gen"), 0755); err != nil {
 		infra("%v", err)
 	}
-	b := &built{work: work, bins: map[string]string{}}
+	b := &built{work: work, bins: map[string]string{}, genSeed: genSeed, genN: genN}
 	repo := repoDir()
 	h := sha256.New()
 	overlay := map[string]string{}
 	siteBase := 0
-	for _, rs := range spec.Rewrites {
+	rewrites := spec.Rewrites
+	if spec.ID == "C03" {
+		rewrites = append(rewrites, prepareC03(b, overlay, h)...)
+	}
+	for _, rs := range rewrites {
 		dir := filepath.Join(repo, rs.Dir)
+		if filepath.IsAbs(rs.Dir) {
+			dir = rs.Dir
+		}
 		var files []string
 		for _, f := range rs.Files {
 			files = append(files, filepath.Join(dir, f))
@@ -194,11 +210,18 @@ func prepare(spec *Spec, flavours []string) *built {
 			h.Write([]byte(n))
 			h.Write(src)
 			rel, _ := filepath.Rel(repo, n)
+			if strings.HasPrefix(rel, "..") {
+				rel = filepath.Base(filepath.Dir(n)) + "/" + filepath.Base(n)
+			}
 			gen := filepath.Join(work, "gen", strings.ReplaceAll(rel, "/", "__"))
 			if err := os.WriteFile(gen, outs[n], 0644); err != nil {
 				infra("%v", err)
 			}
-			overlay[n] = gen
+			if rs.OverlayAs != "" {
+				overlay[rs.OverlayAs] = gen
+			} else {
+				overlay[n] = gen
+			}
 			b.rewrites = append(b.rewrites, rel)
 		}
 	}
@@ -293,6 +316,7 @@ func runWorkers(spec *Spec, b *built, fl string, tier string, n int, runs int, b
 			cmd := driverCmd(spec, b.bins[fl], args)
 			cmd.Dir = b.work
 			env := append(cmd.Env, "GOMAXPROCS=2", "VERIF_REPO="+repoDir(), "VERIF_DIR="+verifDir)
+			env = append(env, b.env...)
 			if fl == "race" {
 				env = append(env, fmt.Sprintf("GORACE=halt_on_error=0 exitcode=0 log_path=%s/race-%d", b.work, w))
 			}
@@ -367,8 +391,6 @@ func runCheck(spec *Spec, tier string) int {
 	if tier != "quick" && tier != "thorough" {
 		infra("unknown tier %q", tier)
 	}
-	b := prepare(spec, spec.Flavours)
-	defer os.RemoveAll(b.work)
 	ncpu := runtime.NumCPU()
 	if ncpu > 16 {
 		ncpu = 16
@@ -385,31 +407,74 @@ func runCheck(spec *Spec, tier string) int {
 	var all []*harness.WorkerResult
 	var problems []string
 	perFlavour := map[string]map[string]interface{}{}
-	for _, fl := range spec.Flavours {
-		runs, budget := tp.Runs, tp.Budget
-		if fl == "race" {
-			runs = tp.RaceRuns
-			if tier == "thorough" {
-				budget = tp.Budget / 3
-			}
-		} else if tier == "thorough" && len(spec.Flavours) > 1 {
-			budget = tp.Budget * 2 / 3
-		}
-		fstart := time.Now()
-		rs, probs := runWorkers(spec, b, fl, tier, ncpu, runs, budget, nil)
-		problems = append(problems, probs...)
-		ev := 0
-		for _, r := range rs {
-			if r != nil {
-				all = append(all, r)
-				ev += r.Evaluations
-			}
-		}
-		perFlavour[fl] = map[string]interface{}{"evaluations": ev, "wall_s": time.Since(fstart).Seconds(), "workers": ncpu}
+	rounds := 1
+	if tp.Rounds > 1 {
+		rounds = tp.Rounds
 	}
+	var b *built
+	var fpFiles, ntFiles []string
+	var raceLogs strings.Builder
+	var genSeeds []uint64
+	for round := 0; round < rounds; round++ {
+		gs := seed()
+		if round > 0 {
+			gs = seed()*1000003 + uint64(round)
+		}
+		genSeeds = append(genSeeds, gs)
+		b = prepareGen(spec, spec.Flavours, gs, spec.GenN)
+		for _, fl := range spec.Flavours {
+			runs, budget := tp.Runs, tp.Budget
+			budget /= time.Duration(rounds)
+			if fl == "race" {
+				runs = tp.RaceRuns
+				if tier == "thorough" {
+					budget = tp.Budget / 3
+				}
+			} else if tier == "thorough" && len(spec.Flavours) > 1 {
+				budget = tp.Budget * 2 / 3
+			}
+			fstart := time.Now()
+			rs, probs := runWorkers(spec, b, fl, tier, ncpu, runs, budget, nil)
+			problems = append(problems, probs...)
+			ev := 0
+			for _, r := range rs {
+				if r != nil {
+					all = append(all, r)
+					ev += r.Evaluations
+				}
+			}
+			if old, ok := perFlavour[fl]; ok {
+				ev += old["evaluations"].(int)
+			}
+			perFlavour[fl] = map[string]interface{}{"evaluations": ev, "wall_s": time.Since(fstart).Seconds(), "workers": ncpu, "rounds": rounds}
+			// fingerprint sets are per round: keep them by renaming
+			for _, r := range rs {
+				if r == nil {
+					continue
+				}
+				for _, f := range []*string{&r.FpFile, &r.NtFpFile} {
+					nf := filepath.Join(verifDir, ".work", fmt.Sprintf("fp-%d-%d-%s", os.Getpid(), round, filepath.Base(*f)))
+					os.Rename(*f, nf)
+					*f = nf
+				}
+				fpFiles = append(fpFiles, r.FpFile)
+				ntFiles = append(ntFiles, r.NtFpFile)
+			}
+		}
+		logs, _ := filepath.Glob(filepath.Join(b.work, "race-*"))
+		for _, l := range logs {
+			c, _ := os.ReadFile(l)
+			raceLogs.Write(c)
+		}
+		os.RemoveAll(b.work)
+	}
+	defer func() {
+		for _, f := range append(fpFiles, ntFiles...) {
+			os.Remove(f)
+		}
+	}()
 	// merge
 	ev := harness.WorkerResult{Probes: map[string]int{}, Faults: map[string]int{}, Inconclusive: map[string]int{}}
-	var fpFiles, ntFiles []string
 	var viols []harness.FoundViol
 	var samples []interface{}
 	for _, r := range all {
@@ -431,8 +496,6 @@ func runCheck(spec *Spec, tier string) int {
 		for _, i := range r.Infra {
 			problems = append(problems, fmt.Sprintf("%s worker %d: %s", r.Flavour, r.Worker, i))
 		}
-		fpFiles = append(fpFiles, r.FpFile)
-		ntFiles = append(ntFiles, r.NtFpFile)
 		viols = append(viols, r.Violations...)
 		if len(samples) < 3 {
 			samples = append(samples, r.Samples...)
@@ -443,12 +506,7 @@ func runCheck(spec *Spec, tier string) int {
 	// race logs: keep them next to the replays when there were reports
 	raceLog := ""
 	if ev.RaceErrors > 0 {
-		logs, _ := filepath.Glob(filepath.Join(b.work, "race-*"))
-		var sb strings.Builder
-		for _, l := range logs {
-			c, _ := os.ReadFile(l)
-			sb.Write(c)
-		}
+		sb := raceLogs
 		raceLog = filepath.Join(outDir(), "replays", fmt.Sprintf("%s-%d-race.log", spec.ID, seed()))
 		os.MkdirAll(filepath.Dir(raceLog), 0755)
 		os.WriteFile(raceLog, []byte(sb.String()), 0644)
@@ -526,6 +584,10 @@ func runCheck(spec *Spec, tier string) int {
 		"exhaustive":          false,
 		"known_findings_seen": len(printedKnown),
 	}
+	if spec.GenN > 0 {
+		cov["generated_programs_per_round"] = spec.GenN
+		cov["generator_seeds"] = genSeeds
+	}
 	if len(samples) == 0 {
 		cov["samples"] = []interface{}{"no sample recorded"}
 	}
@@ -575,12 +637,23 @@ func replay(path string) int {
 	if fl == "" {
 		fl = "plain"
 	}
-	b := prepare(spec, []string{fl})
+	var b *built
+	if spec.ID == "C03" {
+		var pl struct {
+			GenSeed uint64 `json:"gen_seed"`
+			N       int    `json:"n_programs"`
+		}
+		json.Unmarshal(rp.Plan, &pl)
+		b = prepareGen(spec, []string{fl}, pl.GenSeed, pl.N)
+	} else {
+		b = prepare(spec, []string{fl})
+	}
 	defer os.RemoveAll(b.work)
 	abs, _ := filepath.Abs(path)
 	cmd := driverCmd(spec, b.bins[fl], []string{"-replay", abs})
 	cmd.Dir = b.work
 	cmd.Env = append(cmd.Env, "GOMAXPROCS=2", "VERIF_REPO="+repoDir(), "VERIF_DIR="+verifDir)
+	cmd.Env = append(cmd.Env, b.env...)
 	if fl == "race" {
 		cmd.Env = append(cmd.Env, "GORACE=halt_on_error=0 exitcode=0")
 	}
@@ -612,6 +685,7 @@ func selftest(spec *Spec) int {
 			cmd := driverCmd(spec, b.bins[fl], []string{"-check", spec.ID, "-seed", fmt.Sprint(seed()), "-tier", "quick", "-workers", "1", "-runs", fmt.Sprint(runs),
 				"-budget", "10m", "-out", b.work, "-replays", filepath.Join(b.work, "replays"), "-flavour", fl, "-fplog", log, "-selftest"})
 			cmd.Dir = b.work
+			cmd.Env = append(cmd.Env, b.env...)
 			cmd.Env = append(cmd.Env, "GOMAXPROCS="+gmp, "VERIF_REPO="+repoDir(), "VERIF_DIR="+verifDir, "GORACE=halt_on_error=0 exitcode=0 log_path="+b.work+"/race-st")
 			out, err := cmd.CombinedOutput()
 			if err != nil {
